@@ -3,6 +3,7 @@ package subj
 import (
 	"math/rand"
 	"os"
+	"sort"
 	"strconv"
 	"strings"
 	"time"
@@ -246,8 +247,9 @@ func DriveTree(r *rec.Rec, rng *rand.Rand, run, ops int, variant string) {
 	}
 	// a key near a live iterator's position: at it, just after, a few after, just before
 	nearIter := func() int {
-		for _, li := range its {
-			if li.last != 0 && rng.Intn(2) == 0 {
+		for i := 1; i <= 6; i++ {
+			li := its[i]
+			if li != nil && li.last != 0 && rng.Intn(2) == 0 {
 				off := []int{0, 1, 1, 2, 2, 3, 5, 9, -1, -2, 17, 40}[rng.Intn(12)]
 				return clampK(li.last + li.dir*off)
 			}
@@ -255,13 +257,19 @@ func DriveTree(r *rec.Rec, rng *rand.Rand, run, ops int, variant string) {
 		return 1 + rng.Intn(U)
 	}
 	anyPresent := func() int {
-		for c := range present { // map order: random enough
-			if coarse {
-				return 2*c - rng.Intn(2)
-			}
-			return c
+		if len(present) == 0 {
+			return 1 + rng.Intn(U)
 		}
-		return 1 + rng.Intn(U)
+		cs := make([]int, 0, len(present))
+		for c := range present {
+			cs = append(cs, c)
+		}
+		sort.Ints(cs) // deterministic for a given seed (map order is not)
+		c := cs[rng.Intn(len(cs))]
+		if coarse {
+			return 2*c - rng.Intn(2)
+		}
+		return c
 	}
 
 	// ---- phase 1: a fill pattern up to a node-capacity boundary
@@ -309,9 +317,11 @@ func DriveTree(r *rec.Rec, rng *rand.Rand, run, ops int, variant string) {
 			} else if len(its) < 6 && rng.Intn(2) == 0 {
 				newIter(1 + rng.Intn(6))
 			} else if len(its) > 0 {
-				for i := range its {
-					nextIter(i)
-					break
+				for i := 1; i <= 6; i++ {
+					if its[i] != nil {
+						nextIter(i)
+						break
+					}
 				}
 			}
 		}
